@@ -298,7 +298,7 @@ func checkC19Inner(c c19Case) *ev.Failure {
 	return nil
 }
 
-var c19Cfg = func() *Cfg { c := DefaultCfg(); c.MaxFiles = 5; c.Scale = 2; c.Dirs = true; return c }()
+var c19Cfg = func() *Cfg { c := DefaultCfg(); c.MaxFiles = 5; c.Scale = 2; c.Dirs = true; c.Twins = true; return c }()
 
 var c19Prop = ev.Prop("c19.determinism", genC19(c19Cfg), checkC19, classifyC19, func(c c19Case) interface{} {
 	return map[string]interface{}{"target": c.Target, "delim": c.Delim, "cli": c.CLI, "files": func() []string {
